@@ -693,6 +693,20 @@ fn scenario_endings(w: &mut World, t: Transport, k: u64, rng: &mut Rng) {
         peer_end(p, reset);
     };
     match k {
+        7 if t == Transport::Ws => {
+            // peers that connect to the WebSocket listener and leave before completing the upgrade request
+            // (nothing sent, or a part of it): no event, and the accepted sockets are closed
+            for i in 0..6 {
+                if let Ok(mut s) = TcpStream::connect(addr) {
+                    if i % 2 == 1 {
+                        let _ = s.write_all(b"GET /x HTTP/1.1\r\nHost: localhost\r\n");
+                    }
+                    w.pump(20);
+                    drop(s);
+                }
+            }
+            w.pump(150);
+        }
         13 if t != Transport::Ws => {
             // a child process is alive (fork + exec while the connections are open) when the node removes
             // an outbound and an accepted connection: the sockets must not have been inherited, the peers
@@ -1007,6 +1021,30 @@ fn scenario_endings(w: &mut World, t: Transport, k: u64, rng: &mut Rng) {
             if let Ok(s) = TcpStream::connect(addr) {
                 end_now(w, RawPeer::Tcp(s), 2, false);
             }
+        }
+        3 if t == Transport::Ws => {
+            // the node connects with Ws to a plain HTTP server that answers 404 and closes: Connected(false) and
+            // nothing else (the handshake fails after the upgrade request was sent)
+            let l = TcpListener::bind("127.0.0.1:0").unwrap();
+            let srv = l.local_addr().unwrap();
+            let server = std::thread::spawn(move || {
+                if let Ok((mut s, _)) = l.accept() {
+                    s.set_read_timeout(Some(Duration::from_millis(500))).ok();
+                    let mut buf = [0u8; 2048];
+                    let _ = s.read(&mut buf);
+                    let _ = s.write_all(b"HTTP/1.1 404 Not Found\r\nContent-Length: 0\r\n\r\n");
+                }
+            });
+            let ep = w.connect(t, srv);
+            eps.push(ep);
+            for _ in 0..10 {
+                w.pump(50);
+                if server.is_finished() {
+                    break
+                }
+            }
+            let _ = server.join();
+            w.pump(100);
         }
         3 if t != Transport::Ws => {
             // the node connects out; the raw acceptor answers with data and closes at once
